@@ -73,6 +73,7 @@ type world struct {
 	now      int64
 	counters map[string]int
 	fmtRecs  []fmtRec
+	aesRecs  []aesRec
 }
 
 var anyType = types.NewInterfaceType(nil, nil).Complete()
@@ -86,6 +87,9 @@ func (i *interpreter) findExternal(fn *ssa.Function) externalFn {
 	}
 	if fn.Pkg != nil && fn.Signature.Recv() == nil && strings.HasPrefix(fn.Name(), "vx") {
 		if ext := vxFuncs[fn.Name()]; ext != nil {
+			return ext
+		}
+		if ext := vxFuncsExtra[fn.Name()]; ext != nil {
 			return ext
 		}
 		if fn.Blocks == nil {
